@@ -293,6 +293,7 @@ Local Notation "'do' x <- e ; k" := (match e with Some x => k | None => None end
    current field values (UnmarshalBinary decodes into a copy of them) *)
 Definition message_of_tree (m0 : message) (t : cbor) : option message :=
   match t with
+  | CNull => Some m0          (* CBOR null into a struct: no effect, no error *)
   | CMap [ (CText k1, v1); (CText k2, v2); (CText k3, v3); (CText k4, v4);
            (CText k5, v5); (CText k6, v6); (CText k7, v7); (CText k8, v8) ] =>
       if bytes_eqb k1 k_ssid && bytes_eqb k2 k_from && bytes_eqb k3 k_to && bytes_eqb k4 k_protocol
